@@ -17,6 +17,7 @@
 -/
 import SysLoss.Proofs.Basic
 import SysLoss.Model.Table
+import SysLoss.Proofs.Domain
 import Mathlib.Algebra.BigOperators.Group.List.Basic
 import Mathlib.Algebra.BigOperators.Ring.List
 import Mathlib.Algebra.Order.BigOperators.Ring.List
@@ -159,6 +160,40 @@ theorem domain_step (s : SSys α) (phase : String) (ta : α) (v i : Vec α) (st 
   · intro hk; simp [hk]
   · intro h1 h2; cases hk : nd.comp.kind <;> simp_all
   · intro hk; simp [hk]
+
+/-- **Domain column of the whole table.**  For every topological order of the nodes (no repetitions,
+    parents listed before their children — whatever rustworkx returns), the component rows come out one
+    per node in that order, every Source row is its own domain, and every other non-mux row carries the
+    domain of its (first) parent's row.  By induction along the path to the root a component is therefore
+    attributed to the source at the top of its supply path, for *every* valid order and every way the
+    system was built (this is what fix 8389da8 established; before it the domain of the previously
+    listed row was used). -/
+theorem domain_table (s : SSys α) (phase : String) (ta : α) (v i : Vec α) (st : St)
+    (hnodup : s.topo.Nodup) (hnodes : ∀ n ∈ s.topo, ∃ nd, s.node? n = some nd)
+    (hpar : ∀ (pre : List Nat) (n : Nat) (post : List Nat), s.topo = pre ++ n :: post →
+        ∀ nd p rest, s.node? n = some nd → nd.parents = p :: rest → p ∈ pre) :
+    let rows := s.compRows phase ta v i st
+    rows.length = s.topo.length ∧
+    (∀ k (hk : k < s.topo.length) (hk' : k < rows.length) nd, s.node? s.topo[k] = some nd →
+        nd.comp.kind = .source → (rows[k]).domain = nd.comp.name) ∧
+    (∀ k (hk : k < s.topo.length) (hk' : k < rows.length) nd p rest, s.node? s.topo[k] = some nd →
+        nd.parents = p :: rest → nd.comp.kind ≠ .source → nd.comp.kind ≠ .pmux →
+        ∃ j, ∃ (hj : j < k) (hj' : j < rows.length), s.topo[j]'(by omega) = p ∧ (rows[k]).domain = (rows[j]).domain) := by
+  intro rows
+  have h0 : DomInv s phase ta v i st [] ([], "none", []) :=
+    ⟨rfl, fun j hj => absurd hj (by simp), fun k hk => absurd hk (by simp), fun k hk => absurd hk (by simp)⟩
+  have h := domInv_foldl s phase ta v i st s.topo [] ([], "none", []) h0 (by simpa using hnodup) hnodes
+    (by intro pre n post hl nd p rest hn hp; simpa using hpar pre n post hl nd p rest hn hp)
+  simp only [List.nil_append] at h
+  have hrows : rows = (s.topo.foldl (rowStep s phase ta v i st) ([], "none", [])).1 :=
+    compRows_eq_foldl s phase ta v i st
+  refine ⟨by rw [hrows]; exact h.len, ?_, ?_⟩
+  · intro k hk hk' nd hn hsrc
+    have := h.src k hk (by rw [← hrows]; exact hk') nd hn hsrc
+    simpa [hrows] using this
+  · intro k hk hk' nd p rest hn hp hns hnm
+    obtain ⟨j, hj, hj', hdj, hdom⟩ := h.inh k hk (by rw [← hrows]; exact hk') nd p rest hn hp hns hnm
+    exact ⟨j, hj, by rw [hrows]; exact hj', hdj, by simpa [hrows] using hdom⟩
 
 end C07
 end SysLoss
